@@ -79,7 +79,7 @@ Qed.
 
 Lemma view_true_first l : match view_steps true l with [] => True | s :: _ => ss_dslash s = true end.
 Proof.
-  induction l as [|a l IH]; simpl; auto. destruct (is_empty_step a); auto. reflexivity.
+  induction l as [|a l IH]; simpl; auto. destruct (is_empty_step a); auto.
 Qed.
 Lemma els_view l : forall b, els_of (view_steps b l) = compile' b (view_steps false l).
 Proof.
@@ -93,7 +93,7 @@ Theorem to_elements_view x els : to_elements x = Some els -> els = compile (view
 Proof.
   unfold to_elements. rewrite tx_view. unfold compile, view. simpl.
   destruct (xp_relative x); simpl.
-  - change (pend false (empty_step :: xp_steps x)) with (pend true (xp_steps x)).
+  - change (is_empty_step empty_step) with true.
     destruct (pend true (xp_steps x)); [discriminate|]. intros [= <-]. apply els_view.
   - destruct (pend false (xp_steps x)); [discriminate|]. intros [= <-]. apply els_view.
 Qed.
@@ -102,10 +102,10 @@ Qed.
 Lemma ssat_sat ct p any s : sat ct p (el_of any s) = ssat ct p s.
 Proof.
   destruct p as [[n f] i]. unfold sat, match_node_element, ssat, el_of. simpl.
-  f_equal; [f_equal|].
-  - destruct (ss_class s); auto. unfold subclass. now rewrite pystr_eqb_refl.
-  - unfold opt_ok, given. destruct (ss_field s), f; reflexivity.
-  - unfold opt_ok, given. destruct (ss_index s), i; reflexivity.
+  assert (E : subclass ct (cls n) (match ss_class s with Some c => c | None => astnode end)
+              = match ss_class s with None => true | Some c => subclass ct (cls n) c end).
+  { destruct (ss_class s); auto. }
+  rewrite E. unfold opt_ok, given. destruct (ss_field s), f, (ss_index s), i; reflexivity.
 Qed.
 
 (* ================= Part 3: R = an index assignment exists ================= *)
@@ -177,7 +177,10 @@ Section Idx.
   Proof.
     induction es as [|e es IH]; intros lo [|j js]; unfold idx_ok.
     - simpl. split.
-      + intros ->. repeat split; auto; intros; destruct i; discriminate.
+      + intros ->. split; auto. split; [|split; [|split]]; auto.
+        * intros [|i] e j H; discriminate.
+        * intros [|i] j j' e H; discriminate.
+        * intros e j H; discriminate.
       + intros (_ & _ & _ & _ & H). exact H.
     - simpl. split; [tauto|]. intros (H & _). discriminate.
     - simpl. split; [tauto|]. intros (H & _). discriminate.
@@ -243,7 +246,7 @@ Proof.
       injection He as <-. simpl. eapply CONS; eauto.
     + intros e j He Hj. rewrite compile'_nth in He. destruct (nth_error ss 0) as [s|] eqn:Es; [|discriminate].
       injection He as <-. simpl. split; [lia|]. intro Hf. apply orb_false_iff in Hf as [Hd Hb].
-      apply (FIRST s j Es Hj); auto. unfold b in Hb. now apply negb_false_iff in Hb.
+      apply (FIRST s j eq_refl Hj); auto. unfold b in Hb. now apply negb_false_iff in Hb.
     + rewrite (last_map_S js NE 0 0). exact LAST.
   - intros (js & L & SAT & CONS & FIRST & LAST). exists js. rewrite compile'_length in L.
     assert (NE : js <> []).
@@ -305,4 +308,26 @@ Proof.
   intros l n Hp. split; [now apply (Hiff l n)|].
   destruct (xmatch_steps ct root x els l n W ND WF E Hp) as (b & Hb & Hs). rewrite Hb. rewrite <- Hs.
   split; [intros [= ->]; auto|intros ->; auto].
+Qed.
+
+(* ---- the premises are inhabited: "//P/@items[2]L" on the example tree; "/@child P" does not match the root ---- *)
+Definition ex_xp1 : xpath :=
+  {| xp_relative := false; xp_steps := [empty_step; st "" IAbsent "P"; st "items" (IVal 2) "L"] |}.
+Definition ex_xp2 : xpath := {| xp_relative := false; xp_steps := [st "child" IAbsent "P"] |}.
+Definition ex_ti6 : tinfo :=
+  {| ti_node := ex_leaf 6 "L"; ti_parent := ex_root; ti_field := lit "items"; ti_index := Some 2 |}.
+Lemma c07_steps_inhabited :
+  well_formed ex_xp1 = true /\
+  to_elements ex_xp1 = Some [ {| e_cls := lit "P"; e_field := None; e_index := None; e_any := true |};
+                              {| e_cls := lit "L"; e_field := Some (lit "items"); e_index := Some 2; e_any := false |} ] /\
+  path ex_root [ex_ti6] (ex_leaf 6 "L") /\
+  step_sem ex_ct (view ex_xp1) (chain ex_root [ex_ti6]) /\
+  well_formed ex_xp2 = true /\ ~ step_sem ex_ct (view ex_xp2) (chain ex_root []).
+Proof.
+  split; [reflexivity|]. split; [reflexivity|]. split.
+  { econstructor; [vm_compute; auto 10|]. constructor. }
+  split.
+  - eapply steps_sem; [reflexivity|discriminate|]. apply c07_inhabited.
+  - split; [reflexivity|]. intro H. eapply steps_sem in H; [|reflexivity|discriminate].
+    apply R_cons_inv in H as [[Hs _]|[Ha _]]; vm_compute in *; discriminate.
 Qed.
